@@ -15,11 +15,14 @@ CLAIMS = {
         "machine nextTopicLevel computes the specification's split and accepts exactly the valid filters); C06_store_refines and "
         "C06_subscribers_partial (after any history the trie holds exactly the abstract store's subscriptions and Subscribers answers as "
         "the specification does); C06_invalid_filter_rejected; for retained messages C06_rmatch_char, C06_rwalk_eq_spec, "
-        "C06_retained_trie_refines, C06_retained_pruned_preserved, C06_retained_store_refines, C06_retained_partial. PARTIAL: the "
-        "history/levels theorems carry the decidable hypothesis 'no empty level and no $-led level in any topic argument' (and retained "
-        "topics are valid names) - exactly the open findings B3 (empty levels, pinned by the suite) and B4 ('$' below the first level); "
-        "the unrestricted statements are kept next to proved counterexamples (C06_subscribers_full_counterexample, "
-        "C06_retained_full_counterexample, C06_levels_counterexample_empty_level, C06_levels_counterexample_dollar_level) and the "
+        "C06_retained_trie_refines, C06_retained_pruned_preserved, C06_retained_store_refines, C06_retained_partial; topics beginning "
+        "with '$' (outside the quantifier) are turned away by all five entry points, store unchanged (C06_dollar_topics_rejected); a '$' "
+        "anywhere else is an ordinary character since finding B4 ('$' below the first level rejected) was repaired "
+        "(C06_dollar_level_literal: 'a/$b' is subscribed, matched literally and retained). PARTIAL: the history/levels theorems carry "
+        "the decidable hypothesis 'no empty level in any topic argument' (and retained topics are valid names) - exactly the open "
+        "finding B3 (empty levels, pinned by the suite); queried names/filters additionally must not begin with '$' (`good`); the "
+        "unrestricted statements are kept next to proved counterexamples (C06_subscribers_full_counterexample, "
+        "C06_retained_full_counterexample, C06_levels_counterexample_empty_level) and the "
         "deviant inputs are replayed on the real code on every run. Exhaustive sweep of all filter x name pairs up to 3/4 levels over "
         "{a,b,'',+,#} and random histories tie model, code and specification"),
 }
@@ -82,8 +85,9 @@ CLAIMS['C17'] = dict(category='exploration', ref='8 C17',
 
 _PARTIAL_SCHED = (" PARTIAL: theorems are about the sequential model (one event = one atomic step); real interleavings inside one event are represented only "
                   "by the order of events, and that atomicity rests on the lock discipline (C18). Topic arguments of the trie-level statements carry the "
-                  "decidable hypothesis `good` (no empty level, no '$'-led level): exactly the open findings B3/B4, whose full statements are kept "
-                  "beside proved counterexamples and whose witnesses are replayed on the real code on every run.")
+                  "decidable hypothesis `good` (no empty level: exactly the open finding B3, whose full statements are kept beside proved "
+                  "counterexamples and whose witnesses are replayed on the real code on every run; and not beginning with '$': such topics are "
+                  "outside the properties' quantifier, the store turns them away and the oracle leaves events naming them open).")
 CLAIMS['C01'] = dict(category='proof', ref='5 Core E, 8 C01', text=_BROKER_TEXT % (
     "Theorems (9): exact ordered outputs of the fan-out loop incl. the in-place message mutation (C01_fanout_char, C01_fanout_ids); onPublish delivers to "
     "exactly one copy per trie entry whose filter matches under section 4.7, at min(publish QoS, granted QoS), same topic, identical payload, and to "
@@ -92,8 +96,8 @@ CLAIMS['C01'] = dict(category='proof', ref='5 Core E, 8 C01', text=_BROKER_TEXT 
     "nothing is forwarded to it (C01_connection_end_partial); B3 counterexample (C01_publish_held_full_counterexample).") + _PARTIAL_SCHED +
     " Not carried through: the held-list abstraction across CONNECT of a resumed session and connection end (stated at trie level instead).")
 CLAIMS['C07'] = dict(category='proof', ref='5 Core E, 8 C07', text=_BROKER_TEXT % (
-    "Theorems (15): exactly one SUBACK, first, same id, one code per filter in request order = min(requested, maximum) or 0x80, everything after it is a "
-    "PUBLISH to the subscriber (C07_suback_shape); codes equal the reference broker's for good filters (C07_codes_spec_partial; B4 counterexample); "
+    "Theorems (16): exactly one SUBACK, first, same id, one code per filter in request order = min(requested, maximum) or 0x80, everything after it is a "
+    "PUBLISH to the subscriber (C07_suback_shape); codes equal the reference broker's for good filters (C07_codes_spec_partial; 'a/$b' and '+/$b' are granted since the repair of B4: C07_codes_dollar_level; the empty filter is a B3-family counterexample); "
     "UNSUBSCRIBE answered by exactly one UNSUBACK (C07_unsuback); effect on the trie, other subscribers untouched (C07_subscribe_effect, "
     "C07_unsubscribe_effect, C07_granted_is_held); a matching PUBLISH accepted after the SUBACK is forwarded, none after the UNSUBACK "
     "(C07_effective_after_suback_partial, C07_none_after_unsuback_partial); the held list of the reference broker is maintained (C07_held_refines_partial, "
@@ -114,7 +118,7 @@ CLAIMS['C09'] = dict(category='proof', ref='5 Core E, 8 C09', text=_BROKER_TEXT 
     "reads a will (C09_only_stop_reads_will, C09_stop_reads_will_only_with_flag, C09_will_kept_step); invariant (C09_inv).") + _PARTIAL_SCHED +
     " Keep-alive expiry as a cause is an event of the model; its timing is C19. With two live connections under one client id the will statement is false of the code (hypothesis `quiet`).")
 CLAIMS['C10'] = dict(category='proof', ref='5 Core E, 8 C10', text=_BROKER_TEXT % (
-    "Theorems (15): SessionPresent=1 iff CleanSession=0, non-empty id and the store holds a session kept from a CleanSession=0 connection "
+    "Theorems (16): SessionPresent=1 iff CleanSession=0, non-empty id and the store holds a session kept from a CleanSession=0 connection "
     "(C10_session_present); a clean CONNECT starts from a fresh empty session, tries unchanged (C10_clean_starts_empty); after a clean session ends the "
     "store no longer maps its id (C10_clean_discarded), a persistent one stays with its topics and open QoS 2 exchanges (C10_persistent_kept); on resume the "
     "topic store is the re-subscription of the kept list and every kept entry answers the subscriber lookup for matching names (C10_resume_resubscribes, "
